@@ -85,7 +85,10 @@ class ProgProp(object):
             self.extra_checks(s, r, out)
             if out:
                 break
-        if not out and self.cross_check and len(set(outcomes)) > 1 and not spec.get("faults", {}).get("flushes"):
+        # (a NonAsyncContext around a yield of a shared future fails or not depending on whether
+        # that future is already computed, i.e. on the flush order: no cross-schedule agreement)
+        if not out and self.cross_check and len(set(outcomes)) > 1 and not spec.get("faults", {}).get("flushes") \
+                and '"na"' not in repr(spec["templates"]).replace("'", '"'):
             out.append(("variants-disagree", "calling conventions / flush orders disagree: %r" % (sorted(set(outcomes)),)))
         return {"violations": out, "stats": stats, "sigs": sigs, "nontrivial": nontrivial,
                 "digest": "/".join(sigs), "outcome": outcomes[0] if outcomes else None}
